@@ -45,6 +45,8 @@ THEOREMS = [
     "GeoVerif.Codec.normalise_valid",
     "GeoVerif.Codec.valuemap_roundtrip",
     "GeoVerif.Codec.valuemap_reject",
+    "GeoVerif.Codec.valuemap_keys_fit",
+    "GeoVerif.Codec.valuemap_wraps_counterexample",
     "GeoVerif.Codec.utf8_roundtrip",
 ]
 RULE = (
@@ -105,7 +107,8 @@ def gen_case(rng):
         xs = [rng.choice([0, 1, 0, 1, 1, 2, -1, "nan", "frac"]) for _ in range(n)]
         return {"kind": kind, "xs": [str(x) for x in xs]}
     if kind == "vmap":
-        keys = rng.sample([0, 1, 2, 3, 7, -1, 2 ** 20], rng.randrange(1, 5))
+        # keys are stored as unsigned 32-bit integers: the largest one that fits, and the first ones that do not
+        keys = rng.sample([0, 1, 2, 3, 7, -1, 2 ** 20, 2 ** 32 - 1, 2 ** 32, 2 ** 32 + 5], rng.randrange(1, 5))
         m = []
         for k in keys:
             v = rng.choice(["Unknown", "A", "Bé", "", "x y"]) if k == 0 and rng.random() < 0.5 else ("Unknown" if k == 0 else rng.choice(["A", "Bé", "雪", "", "Unknown"]))
@@ -232,7 +235,8 @@ def run_case(ctx, case, path):
                     failures.append((f"value map {m}: key {k} reads {gm.get(k)!r}", "C08:valuemap-label-lost"))
             if gm.get(0) != "Unknown":
                 failures.append((f"value map {m}: key 0 reads {gm.get(0)!r}", "C08:valuemap-key0"))
-        elif not any(k < 0 or (k == 0 and v != "Unknown") for k, v in m.items()):
+        elif not any(k < 0 or k > 2 ** 32 - 1 or (k == 0 and v != "Unknown") for k, v in m.items()):
+            # a key that does not fit the unsigned 32-bit integer it is stored in cannot be represented: refusing it is right
             failures.append((f"valid value map {m} rejected with {status}", "C08:valuemap-valid-rejected"))
         return lines, checks, failures
     # numeric classes
